@@ -31,7 +31,7 @@ def _strides(shape):
 
 
 class Tensor:
-    __slots__ = ('shape', '_els', 'requires_grad', 'is_param', 'grad', 'name', '_base')
+    __slots__ = ('shape', '_els', 'requires_grad', 'is_param', 'grad', 'name', '_base', 'idt')
 
     def __init__(self, shape, els, requires_grad=False, is_param=False):
         self.shape = tuple(int(s) for s in shape)
@@ -43,6 +43,7 @@ class Tensor:
         self.is_param = is_param
         self.grad = None
         self.name = None
+        self.idt = None              # bit-width of a NARROW signed integer dtype (int32 / int16 / int8) this tensor was explicitly converted to, else None
 
     # storage: a tensor obtained by basic indexing (ints / slices) is a *view*: reads go to, and in-place writes through to,
     # the root tensor (torch semantics of  t[i].fill_(v),  t.data[i] = v ...)
@@ -85,6 +86,7 @@ class Tensor:
         t.is_param = False
         t.grad = None
         t.name = None
+        t.idt = getattr(root, 'idt', None)
         return t
 
     # ---------------------------------------------------------------- construction
@@ -180,7 +182,50 @@ class Tensor:
         return self
 
     def to(self, *a, **k):
+        """device / floating dtypes: identity on the value model.  An explicit narrow integer dtype (torch.int32 / int16 / int8) is tracked: the values are
+        truncated and wrapped, and sums / differences / products of two such tensors wrap like the machine integers (two's complement)"""
+        t = self
+        for d in list(a) + [k.get('dtype')]:
+            if isinstance(d, str) and d.startswith('dtype.'):
+                t = t._as_dtype(d[6:])
+        return t
+
+    def _as_dtype(self, d):
+        if d in ('int32', 'int'):
+            return self._narrow_int(32)
+        if d == 'int16':
+            return self._narrow_int(16)
+        if d == 'int8':
+            return self._narrow_int(8)
+        if d in ('int64', 'long'):
+            return self.map(lambda a: s_trunc(a))
+        if d == 'bool':
+            return self.bool()
+        if 'float' in d or d in ('double', 'half'):
+            return self.map(to_real)
         return self
+
+    def _narrow_int(self, bits):
+        t = self.map(lambda a: _wrap(s_trunc(a), bits))
+        t.idt = bits
+        return t
+
+    def _result_bits(self, o):
+        if self.idt is None:
+            return None
+        if isinstance(o, Tensor):
+            return max(self.idt, o.idt) if o.idt is not None else None
+        if isinstance(o, bool) or not (isinstance(o, int) or (is_sym(o) and z3.is_int(o))):
+            return None
+        return self.idt
+
+    def _arith(self, o, f):
+        bits = self._result_bits(o)
+        if bits is None:
+            return self.zipw(o, f)
+        t = self.zipw(o, lambda a, b: _wrap(f(a, b), bits))
+        t.idt = bits
+        return t
 
     def contiguous(self):
         return self
@@ -198,9 +243,10 @@ class Tensor:
         return self.map(to_real)
 
     def int(self):
-        return self.map(lambda a: s_trunc(a))
+        return self._narrow_int(32)             # torch: .int() is int32
 
-    long = int
+    def long(self):
+        return self.map(lambda a: s_trunc(a))
 
     def bool(self):
         return self.map(lambda a: a if isinstance(a, bool) or (is_sym(a) and z3.is_bool(a)) else s_cmp('!=', a, 0))
@@ -270,16 +316,16 @@ class Tensor:
         return self.expand_to(shape)
 
     def add(self, o):
-        return self.zipw(o, lambda a, b: s_add(a, b))
+        return self._arith(o, lambda a, b: s_add(a, b))
 
     def sub(self, o):
-        return self.zipw(o, lambda a, b: s_sub(a, b))
+        return self._arith(o, lambda a, b: s_sub(a, b))
 
     def rsub(self, o):
         return self.zipw(o, lambda a, b: s_sub(b, a))
 
     def mul(self, o):
-        return self.zipw(o, lambda a, b: s_mul(a, b))
+        return self._arith(o, lambda a, b: s_mul(a, b))
 
     def div(self, o):
         return self.zipw(o, lambda a, b: _safe_div(a, b))
@@ -661,7 +707,12 @@ class Tensor:
             return o.transpose(0, 1).matmul(self)
         raise Unsupported(f'matmul {self.shape} x {o.shape}')
 
-    dot = matmul
+    def dot(self, o):
+        if len(self.shape) != 1 or len(o.shape) != 1:
+            raise RuntimeError(f'1D tensors expected, but got {len(self.shape)}D and {len(o.shape)}D tensors')
+        if self.shape != o.shape:
+            raise RuntimeError('inconsistent tensor size in dot')
+        return Tensor((), [_dot(self.els, o.els)])
 
     # ---------------------------------------------------------------- indexing
     def _index_int(self, i):
@@ -857,6 +908,20 @@ def _argmax_list(xs):
         idx = s_ite(c, i, idx)
         best = s_ite(c, xs[i], best)
     return idx
+
+
+def _wrap(v, bits):
+    """two's-complement wrap of an integer value to `bits` bits (identity on values that are not integers)"""
+    half, full = 2 ** (bits - 1), 2 ** bits
+    if is_sym(v):
+        if not z3.is_int(v):
+            return v
+        return s_sub(s_mod(s_add(v, half), full), half)
+    if isinstance(v, bool) or not isinstance(v, int):
+        if isinstance(v, float) and v == int(v):
+            return float(((int(v) + half) % full) - half)
+        return v
+    return ((v + half) % full) - half
 
 
 def s_trunc(a):
